@@ -161,7 +161,11 @@ def checkGrp : P String := do
       if cmp != "same" then
         c02 := "fail:second-aggregate-sees-edit-of-first-result"
         c05 := firstFail c05 "fail:second-aggregate-sees-edit-of-first-result"
-    else if rb != "err" then c02 := s!"fail:reaggregate-{rb}"
+    else if rb == "err" then
+      -- the same request on the same grouping succeeded a moment ago: nothing the caller did to the returned frame or
+      -- to the returned column list may make it fail now
+      c05 := firstFail c05 "fail:second-aggregate-refused-after-first-succeeded"
+    else c02 := s!"fail:reaggregate-{rb}"
   -- KeyOrder still names every group once after a returned aggregate was edited in place
   expect "KO2"
   let ko2 ← pList pCell
